@@ -334,6 +334,9 @@ func runC12(c *Ctx) {
 	}
 	if g := c.A.Func("(*Conn).handleAuth"); g != nil {
 		for _, site := range s.Find(g, "call:(*Conn).auth") {
+			// mechanism names are case-insensitive (RFC 4954): the backend is asked for the upper-cased name it advertised
+			md := describe(callCommon(site).Args[1])
+			R.Ob(c.siteKey(site, "mechanism name is upper-cased"), c.P.InstrPos(site), strings.HasPrefix(md, "strings.ToUpper("), "the backend is asked for mechanism "+md+": an advertised mechanism spelled in lower case is refused")
 			got := cfgFacts(c, site)
 			R.Ob("(*Conn).handleAuth/accept condition equals advertisement", c.P.InstrPos(site), strings.Join(got, "&&") == `(*Conn).authAllowed(param0) == true`, fmt.Sprintf("AUTH accepted under %v", got))
 		}
